@@ -131,7 +131,7 @@ func (r *Run) sortedOrigin(fn *ssa.Function, v ssa.Value, use ssa.Instruction, d
 
 // C19 — result statistics.
 func C19(p *Prog, r *Run) {
-	r.Explanation = "Decided: (1) every Floats method except Sum returns math.NaN() (both elements for MeanVariance) on the path where len(x)==0 and that test dominates the gonum call; (2) gonum preconditions, keyed by the library function: stat.Quantile gets a constant level in [0,1], the Empirical kind, nil weights and a slice on which a sort call dominates the use (a sorted copy), floats.Min/Max never see an empty slice; (3) each method returns the result of the gonum function the table names (Mean→stat.Mean, …, Median/Q25/Q75→Quantile 0.5/0.25/0.75); (4) the experiment/trial aggregates are built from the recorded generations as their definitions say (success rate = solved/len, solved = any generation solved, epochs per trial = len(Generations), diversity, best organism chosen on a fresh slice). Not decided: gonum's numerics; full recomputation equalities."
+	r.Explanation = "Decided: (1) every Floats method except Sum returns math.NaN() (both elements for MeanVariance) on the path where len(x)==0 and that test dominates the gonum call; (2) gonum preconditions, keyed by the library function: stat.Quantile gets a constant level in [0,1], the Empirical kind, nil weights and a slice on which a sort call dominates the use (a sorted copy), floats.Min/Max never see an empty slice; (3) each method returns the result of the gonum function the table names (Mean→stat.Mean, …, Median/Q25/Q75→Quantile 0.5/0.25/0.75); (4) the experiment/trial aggregates are built from the recorded generations as their definitions say (success rate = solved/len, solved = any generation solved, epochs per trial = len(Generations), diversity, best organism chosen on a fresh slice; the solved count is the loop counter on every return, never a remembered value); (5) the complexity of an organism is Complexity() of the network returned by its Phenotype(), asked only when Phenotype() reported no error, with the math.MaxInt sentinel confined to a missing organism/champion or a failed phenotype. Results are followed through phi nodes edge by edge, so an early return and a single return of a merged value are the same to the rules; a quantile level may be a parameter of an unexported helper when every call in the repository passes a constant in [0,1]. Not decided: gonum's numerics; full recomputation equalities."
 	r.Rule("C19.1", "empty guard: each Floats method except Sum returns NaN when len(x)==0, and the emptiness test dominates the library call", func() {
 		n := 0
 		for _, sp := range floatsTable {
@@ -158,15 +158,12 @@ func C19(p *Prog, r *Run) {
 				r.Check(guarded, "Floats."+sp.method+".guard", p.Pos(c.Pos()), "the library call is reached only when len(x) != 0",
 					"the call of "+sp.callee+" is not dominated by a len(x)==0 test: an empty series reaches the library (panic or undefined result instead of NaN)")
 			}
-			// NaN on the empty path
+			// NaN on the empty path: every way the result is produced under len(x)==0 - a return in the
+			// guarded block, or a value that reaches a merged return over an edge on which len(x)==0 holds
 			nan := 0
-			for _, b := range fn.Blocks {
-				ret, ok := b.Instrs[len(b.Instrs)-1].(*ssa.Return)
-				if !ok {
-					continue
-				}
+			for _, lf := range retLeaves(fn, 0) {
 				onEmpty := false
-				for _, g := range Guards(b) {
+				for _, g := range lf.Guards {
 					if empty, ok := lenGuard(tm, g, "recv"); ok && empty {
 						onEmpty = true
 					}
@@ -174,21 +171,13 @@ func C19(p *Prog, r *Run) {
 				if !onEmpty {
 					continue
 				}
-				want := 1
+				rt := tm.Of(lf.Val)
+				okRet := rt.String() == "math.NaN()"
 				if sp.method == "MeanVariance" {
-					want = 2
+					// the pair {NaN, NaN}: both elements of the returned literal are results of math.NaN()
+					okRet = sliceLitAll(fn, lf.Val, 2, func(v ssa.Value) bool { return tm.Of(v).String() == "math.NaN()" })
 				}
-				cnt := 0
-				for _, in := range b.Instrs {
-					if c, ok := in.(ssa.CallInstruction); ok {
-						if nm, _ := calleeName(c.Common()); nm == "math.NaN" {
-							cnt++
-						}
-					}
-				}
-				rt := tm.Of(ret.Results[0])
-				okRet := cnt >= want && (want == 2 || rt.String() == "math.NaN()")
-				r.Check(okRet, "Floats."+sp.method+".nan", p.Pos(ret.Pos()), "returns NaN for an empty series", fmt.Sprintf("the empty-series path returns %s, expected NaN", rt))
+				r.Check(okRet, "Floats."+sp.method+".nan", p.Pos(lf.Ret.Pos()), "returns NaN for an empty series", fmt.Sprintf("the empty-series path returns %s, expected NaN", rt))
 				nan++
 			}
 			if nan == 0 {
@@ -209,11 +198,13 @@ func C19(p *Prog, r *Run) {
 				n++
 				r.CallSites++
 				args := c.Common().Args
-				lv, isC := args[0].(*ssa.Const)
-				okLv := false
-				if isC && lv.Value != nil {
-					f, _ := constant.Float64Val(lv.Value)
-					okLv = f >= 0 && f <= 1
+				// the level is a constant, possibly handed down through the parameter of an unexported
+				// helper: then every call of the helper in the repository passes a constant in [0,1]
+				lvs, okLv := constFloatsOf(p, fn, args[0], 0)
+				for _, f := range lvs {
+					if !(f >= 0 && f <= 1) {
+						okLv = false
+					}
 				}
 				label := FuncName(fn) + ".Quantile"
 				r.Check(okLv, label+".level", p.Pos(c.Pos()), "constant level in [0,1]", "the quantile level is not a constant in [0,1]")
@@ -253,9 +244,11 @@ func C19(p *Prog, r *Run) {
 			retOK := false
 			for _, b := range fn.Blocks {
 				if ret, isRet := b.Instrs[len(b.Instrs)-1].(*ssa.Return); isRet {
-					rt := tm.Of(ret.Results[0])
-					if rt.V == c.Value() {
-						retOK = true
+					// the call's result is returned directly or is what a merged result is on one of its edges
+					for _, lf := range retLeaves(fn, 0) {
+						if lf.Ret == ret && tm.Of(lf.Val).V == c.Value() {
+							retOK = true
+						}
 					}
 					if sp.method == "MeanVariance" {
 						// slice literal {m, v}
@@ -516,6 +509,88 @@ func C19(p *Prog, r *Run) {
 		r.Check(okWS && okSolved, "Trial.WinnerStatistics", p.Pos(ws.Pos()), "(nodes, genes, evaluations, diversity) of the first solved generation", fmt.Sprintf("WinnerStatistics: values are the winner fields in order=%v, taken from the first generation reported solved=%v", okWS, okSolved))
 	})
 
+	r.Rule("C19.7", "complexity is the phenotype's: the complexity of an organism is Complexity() of the network returned by organism.Phenotype() (the math.MaxInt sentinel only when there is no organism or no phenotype), and a generation's champion complexity is that of its champion", func() {
+		oc := p.Func(PkgE, "organismComplexity")
+		r.Fn(FuncName(oc))
+		tm := NewTermer(oc)
+		maxInt := constant.MakeInt64(int64(^uint(0) >> 1)).ExactString()
+		isSentinel := func(v ssa.Value) bool {
+			c, ok := v.(*ssa.Const)
+			return ok && c.Value != nil && c.Value.ExactString() == maxInt
+		}
+		okAll, nCall := true, 0
+		var why []string
+		for _, lf := range retLeaves(oc, 0) {
+			t := tm.Of(lf.Val)
+			if isSentinel(lf.Val) {
+				// only for a missing organism or a failed phenotype
+				just := false
+				for _, g := range lf.Guards {
+					if a, b, ok := eqCond(tm, g); ok && ((a.Op == "param" && a.Idx == 0 && b.Op == "nil") || (b.Op == "param" && b.Idx == 0 && a.Op == "nil")) {
+						just = true
+					}
+					if a, b, ok := neqCond(tm, g); ok {
+						if b.Op != "nil" {
+							a, b = b, a
+						}
+						if b.Op == "nil" && c19PhenotypeResult(a, 1, func(o *Term) bool { return o.Op == "param" && o.Idx == 0 }) {
+							just = true
+						}
+					}
+				}
+				if !just {
+					okAll = false
+					why = append(why, "the sentinel is returned on a path where the organism is present and its phenotype was obtained")
+				}
+				continue
+			}
+			if c19IsPhenotypeComplexity(t, func(o *Term) bool { return o.Op == "param" && o.Idx == 0 }) {
+				nCall++
+				// the network is asked only when Phenotype() reported no error (it is nil otherwise)
+				if !c19PhenotypeOK(tm, lf, func(o *Term) bool { return o.Op == "param" && o.Idx == 0 }) {
+					okAll = false
+					why = append(why, "Complexity() is called on the phenotype without testing the error of Phenotype()")
+				}
+				continue
+			}
+			okAll = false
+			why = append(why, "returns "+t.String())
+		}
+		r.Check(okAll && nCall > 0, "organismComplexity", p.Pos(oc.Pos()), "phenotype.Complexity() of organism.Phenotype(); math.MaxInt only for nil organism or failed phenotype",
+			"organismComplexity does not return the complexity of the organism's phenotype network: "+strings.Join(why, "; ")+" (the genome and the network differ for modular genomes and for genomes without a phenotype)")
+
+		cc := p.Func(PkgE, "Generation.ChampionComplexity")
+		r.Fn(FuncName(cc))
+		ctm := NewTermer(cc)
+		isChampion := func(o *Term) bool { return o.String() == "recv.Champion" }
+		okAll, nCall = true, 0
+		why = nil
+		for _, lf := range retLeaves(cc, 0) {
+			t := ctm.Of(lf.Val)
+			if isSentinel(lf.Val) {
+				just := false
+				for _, g := range lf.Guards {
+					if a, b, ok := eqCond(ctm, g); ok && ((isChampion(a) && b.Op == "nil") || (isChampion(b) && a.Op == "nil")) {
+						just = true
+					}
+				}
+				if !just {
+					okAll = false
+					why = append(why, "the sentinel is returned although a champion is recorded")
+				}
+				continue
+			}
+			if (isCallTo(t, oc) && len(t.Args) == 1 && isChampion(t.Args[0])) || (c19IsPhenotypeComplexity(t, isChampion) && c19PhenotypeOK(ctm, lf, isChampion)) {
+				nCall++
+				continue
+			}
+			okAll = false
+			why = append(why, "returns "+t.String())
+		}
+		r.Check(okAll && nCall > 0, "Generation.ChampionComplexity", p.Pos(cc.Pos()), "organismComplexity(g.Champion); math.MaxInt only without a champion",
+			"Generation.ChampionComplexity is not the complexity of the recorded champion: "+strings.Join(why, "; "))
+	})
+
 	r.Rule("C19.4", "aggregates as origins: success rate, solved counts, epochs per trial, diversity and best organism are computed from the recorded generations as defined", func() {
 		type agg struct {
 			fn    string
@@ -578,7 +653,12 @@ func C19(p *Prog, r *Run) {
 				if !ok {
 					return false, "the solved-trial counter is not incremented exactly under t.Solved() for t ranging over Trials"
 				}
-				return true, "counts trials with Solved()"
+				// what is returned is this counter on every path: a result that comes from anywhere else
+				// (a remembered count, a field) is not recomputed from the recorded trials
+				if why := c19CounterReturns(fn, tm, "recv.Trials"); why != "" {
+					return false, why
+				}
+				return true, "counts trials with Solved() and returns the count on every path"
 			}},
 			{"Trial.Solved", func(fn *ssa.Function, tm *Termer) (bool, string) {
 				okT, okF := false, false
